@@ -30,7 +30,7 @@ ASSUMPTIONS = [
     "digit-exactness of builtins.repr(float), black formatting and string quoting are not decided",
     "classes wrapping callables (NormLambda, HedgeLambda) are not representable by design",
 ]
-FLOORS = {"Y6": 1, "Y8": 3, "R14": 1, "R13": 2, "H7": 4, "R11": 11, "R12": 1, "R1": 60, "R2": 9, "R5": 4, "R6": 3, "R7": 16, "R8": 1, "R9": 3, "T10": 4}
+FLOORS = {"PY-sem": 4, "R1-sem": 30, "H8": 2, "Y6": 1, "Y8": 3, "R14": 1, "R13": 2, "H7": 2, "R11": 11, "R7": 16}
 
 NOT_REPRESENTABLE = {"NormLambda": "wraps a Python callable", "HedgeLambda": "wraps a Python callable"}
 DIRECTIVES = {("Engine", "load"), ("Function", "load"), ("Linear", "engine"), ("Function", "engine")}
@@ -153,12 +153,22 @@ class ReprFacts:
 
 
 def run(check: Check) -> None:
-    p = check.program
-    constructor_fields(check)
-    enum_reprs(check)
-    alias_discipline(check)
+    from .pyroundtrip_sem import constructor_fidelity, py_roundtrip
+
+    # PY-sem: repr -> parse -> evaluate -> repr interpreted on model engines under the three alias settings, every component also on its own and
+    # through PythonExporter(encapsulated=True). It decides what the table rules R1 / R2 (constructor parameter <-> emitted field, elision <-> default),
+    # R5 / R8 (alias discipline), R6 (enum repr <-> lookup), R9 (encapsulated code) and R12 (who prints array elements) approximate; where every
+    # model engine was decided those rules run no more - they are the fallback for code the interpreter cannot follow.
+    decided = py_roundtrip(check)
+    constructor_fidelity(check)  # R1-sem: what the constructors called by the representation store is what they are given
+    if decided:
+        check.notes.append("PY-sem decided every model engine under every alias setting: the table rules R1, R2, R5, R6, R8, R9, R12 (its fallback) were not needed")
+    else:
+        constructor_fields(check)
+        enum_reprs(check)
+        alias_discipline(check)
+        python_exporter(check)
     exports(check)
-    python_exporter(check)
     repr_limits(check)
     from .common import component_truthiness
 
@@ -167,19 +177,16 @@ def run(check: Check) -> None:
 
     c20.early_binding(check, check.program)  # Y6: no setting is frozen in a default argument / class body / module level
     c20.call_time_reads(check)  # Y8: Op.str / Op.is_close read decimals and the tolerances when called
-    from .common import unused_parameters
+    from .common import memoisation_rule, unused_parameters
 
     unused_parameters(check, "R14", {"PythonExporter", "Representation", "Exporter"})
+    memoisation_rule(check)  # H8: a memoised printer answers from an earlier state of the settings (the alias, the decimals)
     from .c13 import engine_init
 
-    engine_init(check)  # the representation rebuilds the engine through Engine(...): its terms must be re-pointed to the new engine
-    from .pyroundtrip_sem import constructor_fidelity, py_roundtrip
-
-    py_roundtrip(check)  # PY-sem: repr -> eval -> repr interpreted on model engines, under the three alias settings
-    constructor_fidelity(check)  # R1-sem: what the constructors called by the representation store is what they are given
+    engine_init(check)  # H7: the representation rebuilds the engine through Engine(...): its terms are re-pointed to the new engine (by interpretation)
     if check.tier == "thorough":
         example_signatures(check)
-    check.exhaustive_parts += ["constructor parameter x emitted field table for every class with a constructor"]
+    check.exhaustive_parts += ["repr / eval on model engines containing every component class, under three alias settings"]
 
 
 # ------------------------------------------------------------------------------------------------ R1 / R2 / T10
